@@ -172,11 +172,12 @@ class BinWriter:
         else:
             size = self.assembler.get_size(operation, address)
         if size:
+            keep = self.keep if marker == ' ' else None
             if overwrite:
                 removed.update(range(address + offset, address + offset + size))
                 marker = '|'
             if self.start <= address < self.end:
-                self.instructions.append(Instruction(skool_address, address, operation, sub, self.keep, self.nowarn, bvalues, self.data, marker))
+                self.instructions.append(Instruction(skool_address, address, operation, sub, keep, self.nowarn, bvalues, self.data, marker))
             return size
         raise SkoolParsingError("Failed to assemble:\n {} {}".format(address, operation))
 
